@@ -10,14 +10,19 @@ Definition hold_th (h : thread) (i : Z) (o : nat) (e : nat) : Prop :=
 Lemma holder_iff : forall s i o e, holder s i o e <-> exists x, x < s_n s /\ hold_th (s_thr s x) i o e.
 Proof. intros. unfold holder, hold_th. tauto. Qed.
 
-(* a mover of the core operation set is the lock holder of get, between lines 121 and 124 *)
+(* a mover is the lock holder of get between lines 121 and 124, or of cull between lines 205 and 210 *)
 Lemma mov_core : forall s x i o, Inv s -> x < s_n s -> mov_of (s_thr s x) = Some (i, o) ->
-  holds (t_pc (s_thr s x)) = true /\ sabs (t_pc (s_thr s x)) = true /\ wabs (t_pc (s_thr s x)) = true /\
-  t_id (s_thr s x) = i /\ t_val (s_thr s x) = Some o.
+  holds (t_pc (s_thr s x)) = true /\ dget (s_strong s) i = None /\ dget (s_weak s) i = None /\
+  absent_key (s_thr s x) = Some i.
 Proof.
-  intros s x i o Hinv Hx H. destruct (inv_scope s Hinv x Hx) as (Hc & _).
-  unfold mov_of in H. destruct (t_pc (s_thr s x)) eqn:E; try discriminate; simpl in Hc; try discriminate;
-    destruct (t_val (s_thr s x)) eqn:V; try discriminate; inversion H; subst; simpl; auto.
+  intros s x i o Hinv Hx H.
+  pose proof (inv_sabs s Hinv x Hx) as S. pose proof (inv_wabs s Hinv x Hx) as W.
+  destruct (inv_cull s Hinv x Hx) as (K & _).
+  unfold mov_of in H. unfold absent_key. destruct (t_pc (s_thr s x)) eqn:E; try discriminate; simpl in *.
+  - destruct (t_val (s_thr s x)); [| discriminate]. inversion H; subst. auto.
+  - destruct (t_val (s_thr s x)); [| discriminate]. inversion H; subst. auto.
+  - destruct (t_cobj (s_thr s x)); [| discriminate]. inversion H; subst. destruct (K eq_refl). auto.
+  - destruct (t_cobj (s_thr s x)); [| discriminate]. inversion H; subst. destruct (K eq_refl). auto.
 Qed.
 
 Lemma registered_fun : forall s i o o', Inv s -> registered s i o -> registered s i o' -> o = o'.
@@ -25,21 +30,20 @@ Proof.
   intros s i o o' Hinv [A | [A | (x & Hx & A)]] [B | [B | (y & Hy & B)]].
   - congruence.
   - assert (dget (s_weak s) i = None) by (apply (inv_disj s Hinv); congruence). congruence.
-  - destruct (mov_core s y i o' Hinv Hy B) as (_ & S & _ & I & _).
-    pose proof (inv_sabs s Hinv y Hy S). congruence.
+  - destruct (mov_core s y i o' Hinv Hy B) as (_ & S & _). congruence.
   - assert (dget (s_weak s) i = None) by (apply (inv_disj s Hinv); congruence). congruence.
   - congruence.
-  - destruct (mov_core s y i o' Hinv Hy B) as (_ & _ & W & I & _).
-    pose proof (inv_wabs s Hinv y Hy W). congruence.
-  - destruct (mov_core s x i o Hinv Hx A) as (_ & S & _ & I & _).
-    pose proof (inv_sabs s Hinv x Hx S). congruence.
-  - destruct (mov_core s x i o Hinv Hx A) as (_ & _ & W & I & _).
-    pose proof (inv_wabs s Hinv x Hx W). congruence.
-  - destruct (mov_core s x i o Hinv Hx A) as (H1 & _ & _ & _ & V1).
-    destruct (mov_core s y i o' Hinv Hy B) as (H2 & _ & _ & _ & V2).
+  - destruct (mov_core s y i o' Hinv Hy B) as (_ & _ & W & _). congruence.
+  - destruct (mov_core s x i o Hinv Hx A) as (_ & S & _). congruence.
+  - destruct (mov_core s x i o Hinv Hx A) as (_ & _ & W & _). congruence.
+  - destruct (mov_core s x i o Hinv Hx A) as (H1 & _).
+    destruct (mov_core s y i o' Hinv Hy B) as (H2 & _).
     apply (inv_lock s Hinv x Hx) in H1. apply (inv_lock s Hinv y Hy) in H2.
     assert (x = y) by congruence. subst. congruence.
 Qed.
+
+Lemma deadw_holds : forall th k, deadw th = Some k -> holds (t_pc th) = true.
+Proof. intros th k H. unfold deadw in H. destruct (t_pc th); try discriminate; reflexivity. Qed.
 
 (* whoever holds a result keeps the object alive *)
 Lemma any_thread_intro : forall f n x o, x < n -> thread_refs (f x) o = true -> any_thread f n o = true.
@@ -116,36 +120,46 @@ Proof.
   - eapply R2; eauto.
 Qed.
 
-(* line 121 of get *)
+(* a dead weak entry about to be deleted (get line 121, cull line 198) *)
 Hypothesis Hweak : s_weak s' = s_weak s \/ holds (t_pc th) = true.
 Hypothesis N1 : forall i0 o0 e0, new = Some (i0, o0, e0) ->
-  forall x, x < s_n s -> x <> t -> t_pc (s_thr s x) = F121 -> t_val (s_thr s x) = None -> t_id (s_thr s x) <> i0.
+  forall x k, x < s_n s -> x <> t -> deadw (s_thr s x) = Some k -> k <> i0.
 Hypothesis N2 : (forall i, s_epoch s' i = s_epoch s i) \/ holds (t_pc th) = true.
-Hypothesis N3 : t_pc th' = F121 ->
-  match t_val th' with
-  | Some o => dget (s_weak s') (t_id th') = Some o
-  | None => forall o, ~ holder s' (t_id th') o (s_epoch s' (t_id th'))
-  end.
+Hypothesis N3 : forall k, deadw th' = Some k ->
+  dget (s_weak s') k <> None /\ forall o, ~ holder s' k o (s_epoch s' k).
+Hypothesis N4 : forall o, t_pc th' = F121 -> t_val th' = Some o -> dget (s_weak s') (t_id th') = Some o.
 
-Lemma f_f121 : forall x, x < s_n s' -> t_pc (s_thr s' x) = F121 ->
-  match t_val (s_thr s' x) with
-  | Some o => dget (s_weak s') (t_id (s_thr s' x)) = Some o
-  | None => forall o, ~ holder s' (t_id (s_thr s' x)) o (s_epoch s' (t_id (s_thr s' x)))
-  end.
+Lemma other_not_holding : forall x, x < s_n s -> x <> t -> holds (t_pc (s_thr s x)) = true -> holds (t_pc th) = true -> False.
 Proof.
-  intros x Hx. rewrite Hn in Hx. destruct (Nat.eq_dec x t) as [-> | Hne].
-  - rewrite (thr_same s s' t th' Hthr). exact N3.
-  - rewrite (thr_other s s' t th' Hthr) by assumption. intros P.
-    pose proof (inv_f121 s Hinv x Hx P) as Q.
-    assert (Hx_holds : holds (t_pc (s_thr s x)) = true) by (rewrite P; reflexivity).
+  intros x Hx Hne A B. apply (inv_lock s Hinv x Hx) in A. apply (inv_lock s Hinv t Ht) in B. congruence.
+Qed.
+
+Lemma f_f121 : forall x o, x < s_n s' -> t_pc (s_thr s' x) = F121 -> t_val (s_thr s' x) = Some o ->
+  dget (s_weak s') (t_id (s_thr s' x)) = Some o.
+Proof.
+  intros x o Hx. rewrite Hn in Hx. destruct (Nat.eq_dec x t) as [-> | Hne].
+  - rewrite (thr_same s s' t th' Hthr). apply N4.
+  - rewrite (thr_other s s' t th' Hthr) by assumption. intros P V.
+    destruct Hweak as [E | E].
+    + rewrite E. now apply (inv_f121 s Hinv).
+    + exfalso. apply (other_not_holding x Hx Hne); [now rewrite P | exact E].
+Qed.
+
+Lemma f_deadw : forall x k, x < s_n s' -> deadw (s_thr s' x) = Some k ->
+  dget (s_weak s') k <> None /\ forall o, ~ holder s' k o (s_epoch s' k).
+Proof.
+  intros x k Hx. rewrite Hn in Hx. destruct (Nat.eq_dec x t) as [-> | Hne].
+  - rewrite (thr_same s s' t th' Hthr). apply N3.
+  - rewrite (thr_other s s' t th' Hthr) by assumption. intros D.
+    destruct (inv_deadw s Hinv x k Hx D) as (Q1 & Q2).
     assert (Hnot : holds (t_pc th) = true -> False).
-    { intros Hh. apply (inv_lock s Hinv t Ht) in Hh. apply (inv_lock s Hinv x Hx) in Hx_holds. congruence. }
-    destruct (t_val (s_thr s x)) eqn:V.
+    { intros Hh. apply (other_not_holding x Hx Hne); [eapply deadw_holds; eauto | exact Hh]. }
+    split.
     + destruct Hweak as [E | E]; [now rewrite E | contradiction].
     + intros o H. destruct N2 as [E | E]; [| contradiction]. rewrite E in H.
       destruct (holder_step _ _ _ H) as [A | A].
-      * exact (Q o A).
-      * exact (N1 _ _ _ A x Hx Hne P V eq_refl).
+      * exact (Q2 o A).
+      * exact (N1 _ _ _ A x k Hx Hne D eq_refl).
 Qed.
 
 End Ident.
